@@ -381,9 +381,9 @@ impl AsmLine {
             Label::Unfilled(_) => panic!("Tried to offset unfilled label"),
         };
         let (offset, _) = label_pos.overflowing_sub(self.line);
-        let offset = (offset as i16) - 1;
+        let offset = (offset as i16).wrapping_sub(1);
         // Must fit in specified offset bits
-        if offset.abs() > 2i16.pow(bits - 1) - if offset > 0 { 1 } else { 0 } {
+        if offset.unsigned_abs() > 2u16.pow(bits - 1) - if offset > 0 { 1 } else { 0 } {
             bail!(
                 severity = Severity::Error,
                 r#"Difference between label and label reference is too large: at line {}, referencing line {}
